@@ -1,6 +1,7 @@
 package main
 
 import (
+	"bytes"
 	"encoding/hex"
 	"errors"
 	"fmt"
@@ -10,6 +11,7 @@ import (
 	"runtime"
 	"strconv"
 	"strings"
+	"testing/iotest"
 
 	"rivaas.dev/router"
 	"verif/harness/hx"
@@ -27,6 +29,9 @@ type renStep struct {
 	Code   int      `json:",omitempty"`
 	CT     string   `json:",omitempty"` // Data: content type
 	Text   string   `json:",omitempty"` // hex: String / HTML / Data payload
+	Rep    int      `json:",omitempty"` // Reader: the payload is Text repeated Rep times (0 = once)
+	RMode  int      `json:",omitempty"` // Reader: 0 bytes.Reader, 1 final bytes together with io.EOF, 2 one byte per Read, 3 half of the buffer per Read
+	KnownN bool     `json:",omitempty"` // Reader: content length passed (else -1)
 	After  string   `json:",omitempty"` // hex: afterwards the handler (a relabelling middleware) calls c.Header("Content-Type", After)
 	FailAt int      `json:",omitempty"` // 0: healthy recorder; k: the writer's k-th Write fails
 	Mode   int      `json:",omitempty"` // 0 broken from then on, (0, err); 1 broken from then on, short write; 2 only that one Write fails
@@ -58,6 +63,14 @@ func (w *flakyWriter) Write(p []byte) (int, error) {
 
 var renTexts = []string{"", "hello", "<p>x</p>", "a\nb", "é", "\xff\x00", "100%", "%s"}
 
+func (s renStep) payload() []byte {
+	p := []byte(unhex(s.Text))
+	if s.Rep > 1 {
+		p = bytes.Repeat(p, s.Rep)
+	}
+	return p
+}
+
 func genRenStep(r *hx.Rand) renStep {
 	var s renStep
 	switch x := r.Intn(20); {
@@ -79,6 +92,14 @@ func genRenStep(r *hx.Rand) renStep {
 		s.Op, s.Code = "SendStatus", hx.Pick(r, []int{200, 201, 404, 418, 500, 599, 299})
 		if r.Chance(1, 4) {
 			s.Op, s.Code = "NoContent", 204
+		}
+	case x == 16:
+		s.Op, s.Code = "Reader", hx.Pick(r, []int{200, 206})
+		s.Text = hex.EncodeToString([]byte(hx.Pick(r, []string{"", "hello, world!", "a", "0123456789abcdef", "\xff\x00\n"})))
+		s.CT = hx.Pick(r, []string{"", "application/octet-stream", "text/plain"})
+		s.RMode, s.KnownN = r.Intn(4), r.Chance(1, 2)
+		if r.Chance(1, 8) {
+			s.Rep = hx.Pick(r, []int{2048, 2049, 4100}) // around and beyond a 32 KiB copy buffer
 		}
 	case x < 17:
 		s.Op, s.Code, s.Text = "Data", hx.Pick(r, []int{200, 206}), hex.EncodeToString([]byte(hx.Pick(r, renTexts)))
@@ -155,6 +176,22 @@ func runRenStep(s renStep) (o renObs) {
 			o.err = c.HTML(s.Code, unhex(s.Text))
 		case "Data":
 			o.err = c.Data(s.Code, s.CT, []byte(unhex(s.Text)))
+		case "Reader":
+			p := s.payload()
+			n := int64(-1)
+			if s.KnownN {
+				n = int64(len(p))
+			}
+			var rd io.Reader = bytes.NewReader(p)
+			switch s.RMode {
+			case 1:
+				rd = iotest.DataErrReader(rd)
+			case 2:
+				rd = iotest.OneByteReader(rd)
+			case 3:
+				rd = iotest.HalfReader(rd)
+			}
+			o.err = c.DataFromReader(s.Code, n, s.CT, rd, nil)
 		case "SendStatus":
 			o.err = c.SendStatus(s.Code)
 		case "NoContent":
@@ -203,8 +240,8 @@ func emitRen(id string, k *renCase, st *hx.Stats) string {
 			enc, encErr := encRef(s.J.Variant, s.J.V.val())
 			l.Tok("J").Nat(s.J.Variant).Nat(s.J.Code).Bool(s.J.HasExtra).Str(unhex(s.J.Extra)).Bool(encErr == nil).Bytes(enc)
 		default:
-			kind := map[string]int{"String": 0, "HTML": 1, "Data": 2, "SendStatus": 3, "NoContent": 4}[s.Op]
-			text := unhex(s.Text)
+			kind := map[string]int{"String": 0, "HTML": 1, "Data": 2, "SendStatus": 3, "NoContent": 4, "Reader": 5}[s.Op]
+			text := string(s.payload())
 			if s.Op == "SendStatus" { // documented: the standard status text is the body (net/http's table is a parameter)
 				if text = http.StatusText(s.Code); text == "" {
 					text = strconv.Itoa(s.Code) + " Status Code"
